@@ -448,6 +448,7 @@ type c19PartOp struct {
 	err      error
 	notFound bool
 	client   int
+	txfree   bool // called with tx == nil, directly on the cache part store
 }
 
 var errC19NotFound = errors.New("verif: part not found")
@@ -538,6 +539,23 @@ func runC19PartStore(rc *RunCtx) (*Violation, error) {
 		readSizes []int
 		think     time.Duration
 	}
+	// transaction-free calls (tx == nil; what the outbox worker, post-commit
+	// deletes and tx-free streaming reads do on stores advertising the
+	// CapabilityTxFree* set) go to the cache part store directly, not through
+	// the seam above it: the call then returns in the same scheduler step in
+	// which the cache entry was updated. The seam BELOW the cache still yields
+	// around every inner-store call, i.e. between the inner call and the cache
+	// update. Which calls run tx-free is drawn after all plans (old tapes keep
+	// their meaning; an exhausted tape means "all calls in transactions").
+	var cacheStore partstore.PartStore = store
+	if top, isSeam := store.(*seams.PS); isSeam {
+		cacheStore = top.Inner
+	}
+	caps := partstore.CapabilitiesOf(store)
+	txFreeOK := caps.Has(partstore.CapabilityTxFreeGetPart) && caps.Has(partstore.CapabilityTxFreePutPart) && caps.Has(partstore.CapabilityTxFreeDeletePart)
+	txfree := make([][]bool, nTasks)
+	allPlans := make([][]plan, nTasks)
+	var runOp func(ci, i int, p plan, free bool)
 	var tasks []*sim.Task
 	for c0 := 0; c0 < nTasks; c0++ {
 		ci := c0
@@ -551,16 +569,57 @@ func runC19PartStore(rc *RunCtx) (*Violation, error) {
 			p.think = time.Duration(g.Int(80)) * time.Microsecond
 			plans = append(plans, p)
 		}
+		allPlans[ci] = plans
 		tasks = append(tasks, rc.S.Go(fmt.Sprintf("c%d", ci), func(t *sim.Task) {
-			for i, p := range plans {
+			// (the plans of a task are complete only when it first runs: the
+			// tx-free extras below are drawn after all base plans)
+			for i, p := range allPlans[ci] {
+				runOp(ci, i, p, txfree[ci][i])
+			}
+		}))
+	}
+	runOp = func(ci, i int, p plan, free bool) {
+		{
+			{
 				rc.S.Sleep(p.think)
-				op := &c19PartOp{kind: p.kind, id: p.id, client: ci}
+				op := &c19PartOp{kind: p.kind, id: p.id, client: ci, txfree: free}
 				ops = append(ops, op)
 				ev++
 				op.call = ev
 				id := ids[p.id]
-				switch p.kind {
-				case "put":
+				switch {
+				case op.txfree && p.kind == "put":
+					op.tag = fmt.Sprintf("id%d.c%d.%d", p.id, ci, i)
+					op.val = cachesValue(op.tag, p.filler)
+					if mode == "write-once-ids" {
+						op.val = cachesValue(fmt.Sprintf("id%d.only", p.id), preFill)
+					}
+					body := seams.NewBody(op.val)
+					body.Sizes = p.bodySizes
+					body.YieldEvery = 1
+					op.err = cacheStore.PutPart(ctx, nil, id, body)
+				case op.txfree && p.kind == "delete":
+					op.err = cacheStore.DeletePart(ctx, nil, id)
+				case op.txfree:
+					rd, err := cacheStore.GetPart(ctx, nil, id)
+					switch {
+					case err != nil && errors.Is(err, partstore.ErrPartNotFound):
+						op.notFound = true
+					case err != nil:
+						op.err = err
+					default:
+						// (on a miss the seam below the cache yields at every chunk anyway)
+						yieldEvery := 0
+						if p.readSizes[0] < 64 {
+							yieldEvery = 1
+						}
+						got, rerr := seams.ReadAllSized(rd, p.readSizes, yieldEvery, "part.read")
+						if cerr := rd.Close(); rerr == nil && cerr != nil {
+							rerr = cerr
+						}
+						op.err, op.val = rerr, got
+					}
+				case p.kind == "put":
 					op.tag = fmt.Sprintf("id%d.c%d.%d", p.id, ci, i)
 					op.val = cachesValue(op.tag, p.filler)
 					if mode == "write-once-ids" {
@@ -572,7 +631,7 @@ func runC19PartStore(rc *RunCtx) (*Violation, error) {
 					op.err = database.WithTx(ctx, w.DB, &sql.TxOptions{}, func(ctx context.Context, tx database.Tx) error {
 						return store.PutPart(ctx, tx, id, body)
 					})
-				case "delete":
+				case p.kind == "delete":
 					op.err = database.WithTx(ctx, w.DB, &sql.TxOptions{}, func(ctx context.Context, tx database.Tx) error {
 						return store.DeletePart(ctx, tx, id)
 					})
@@ -602,25 +661,91 @@ func runC19PartStore(rc *RunCtx) (*Violation, error) {
 				}
 				ev++
 				op.ret = ev
+				how := ""
+				if op.txfree {
+					how = " tx=nil"
+					rc.Stats.Inc("c19.partstore.txfree_calls")
+				}
 				switch {
 				case op.kind == "get" && op.notFound:
-					rc.Logf("[%d,%d] c%d GetPart(id%d) -> not found", op.call, op.ret, ci, p.id)
+					rc.Logf("[%d,%d] c%d GetPart(id%d%s) -> not found", op.call, op.ret, ci, p.id, how)
 				case op.kind == "get":
-					rc.Logf("[%d,%d] c%d GetPart(id%d) -> %d B %s err=%v", op.call, op.ret, ci, p.id, len(op.val), cachesClip(op.val), op.err)
+					rc.Logf("[%d,%d] c%d GetPart(id%d%s) -> %d B %s err=%v", op.call, op.ret, ci, p.id, how, len(op.val), cachesClip(op.val), op.err)
 				case op.kind == "put":
-					rc.Logf("[%d,%d] c%d PutPart(id%d, %s, %d B) -> %v", op.call, op.ret, ci, p.id, op.tag, len(op.val), op.err)
+					rc.Logf("[%d,%d] c%d PutPart(id%d%s, %s, %d B) -> %v", op.call, op.ret, ci, p.id, how, op.tag, len(op.val), op.err)
 				default:
-					rc.Logf("[%d,%d] c%d DeletePart(id%d) -> %v", op.call, op.ret, ci, p.id, op.err)
+					rc.Logf("[%d,%d] c%d DeletePart(id%d%s) -> %v", op.call, op.ret, ci, p.id, how, op.err)
 				}
 			}
-		}))
+		}
 	}
+	share := 0
+	if txFreeOK {
+		share = g.Int(4) // of 3: none, a third, two thirds, all calls
+		if share > 0 {
+			// a few more calls on one hot id, so that deletes, fills and
+			// re-reads of the same part meet often enough
+			for ci := range allPlans {
+				for n := g.Int(4); n > 0; n-- {
+					p := plan{kind: []string{"get", "delete", "get", "put"}[g.Int(4)], id: 0}
+					p.filler = []int{0, 30}[g.Int(2)]
+					p.readSizes = [][]int{{4096}, {7}}[g.Int(2)]
+					p.think = time.Duration(g.Int(40)) * time.Microsecond
+					allPlans[ci] = append(allPlans[ci], p)
+				}
+			}
+		}
+		for ci := range txfree {
+			txfree[ci] = make([]bool, len(allPlans[ci]))
+			for i := range txfree[ci] {
+				txfree[ci][i] = g.Chance(share, 3)
+			}
+		}
+	} else {
+		for ci := range txfree {
+			txfree[ci] = make([]bool, len(allPlans[ci]))
+		}
+	}
+	rc.Logf("transaction-free share: %d/3 (bottom advertises the tx-free capabilities: %v)", share, txFreeOK)
 	if err := rc.S.RunTasks(tasks...); err != nil {
 		return nil, err
 	}
 	for _, t := range tasks {
 		if p := TaskPanic(t); p != "" {
 			return rc.Fail("panic", "panic:"+l.CachePolicy, "cache part store (%s): %s", spec.Default, p), nil
+		}
+	}
+	// race rounds on the hot id (only with tx-free calls enabled): a put so
+	// that the part exists, then a delete and a read started together, then a
+	// re-read once both have returned
+	if share > 0 {
+		for round, nRounds := 0, g.Int(4); round < nRounds; round++ {
+			free := func() bool { return g.Chance(share, 3) }
+			small := plan{id: 0, filler: []int{0, 30}[g.Int(2)], readSizes: [][]int{{4096}, {7}}[g.Int(2)]}
+			put, del, get, reread := small, small, small, small
+			put.kind, del.kind, get.kind, reread.kind = "put", "delete", "get", "get"
+			fPut, fDel, fGet, fRe := free(), free(), free(), free()
+			base := 10 + 2*round
+			for _, stage := range [][]func(){
+				{func() { runOp(base, 0, put, fPut) }},
+				{func() { runOp(base, 1, del, fDel) }, func() { runOp(base+1, 0, get, fGet) }},
+				{func() { runOp(base, 2, reread, fRe) }},
+			} {
+				var ts []*sim.Task
+				for j, f := range stage {
+					f := f
+					ts = append(ts, rc.S.Go(fmt.Sprintf("r%d.%d", base, j), func(t *sim.Task) { f() }))
+				}
+				if err := rc.S.RunTasks(ts...); err != nil {
+					return nil, err
+				}
+				for _, t := range ts {
+					if p := TaskPanic(t); p != "" {
+						return rc.Fail("panic", "panic:"+l.CachePolicy, "cache part store (%s): %s", spec.Default, p), nil
+					}
+				}
+			}
+			rc.Stats.Inc("c19.partstore.race_rounds")
 		}
 	}
 	// a final read of every id at quiescence (sees what the cache retained)
@@ -666,6 +791,15 @@ func runC19PartStore(rc *RunCtx) (*Violation, error) {
 
 	// ---- oracle over the recorded history ----
 	pk := l.CachePersistor
+	// findings that involve a transaction-free call carry their own keys
+	idTxFree := func(id int) string {
+		for _, x := range ops {
+			if x.id == id && x.txfree {
+				return ":txfree"
+			}
+		}
+		return ""
+	}
 	var sig []string
 	nGet, nPut, overlap := 0, 0, 0
 	for _, gop := range ops {
@@ -684,7 +818,7 @@ func runC19PartStore(rc *RunCtx) (*Violation, error) {
 		}
 		if gop.err != nil {
 			rc.Stats.Inc("c19.partstore.get_error")
-			rc.SoftFail(rc.Fail("cache-partstore", "get-error:"+pk, "GetPart(id%d) on %s failed with %v after %d bytes although no fault was injected (expected the stored bytes or ErrPartNotFound)", gop.id, spec.Default, gop.err, len(gop.val)))
+			rc.SoftFail(rc.Fail("cache-partstore", "get-error:"+pk+map[bool]string{true: ":txfree"}[gop.txfree], "GetPart(id%d) on %s failed with %v after %d bytes although no fault was injected (expected the stored bytes or ErrPartNotFound)", gop.id, spec.Default, gop.err, len(gop.val)))
 			continue
 		}
 		var cands []*c19PartOp
@@ -716,7 +850,7 @@ func runC19PartStore(rc *RunCtx) (*Violation, error) {
 				}
 			}
 			rc.Stats.Inc("c19.partstore." + kind)
-			rc.SoftFail(rc.Fail("cache-partstore", kind+":"+pk+":"+mode, "GetPart(id%d) [%d,%d] on %s (%s) returned %d bytes %s with a clean EOF: %s", gop.id, gop.call, gop.ret, spec.Default, mode, len(gop.val), cachesClip(gop.val), why))
+			rc.SoftFail(rc.Fail("cache-partstore", kind+":"+pk+":"+mode+idTxFree(gop.id), "GetPart(id%d) [%d,%d] on %s (%s) returned %d bytes %s with a clean EOF: %s", gop.id, gop.call, gop.ret, spec.Default, mode, len(gop.val), cachesClip(gop.val), why))
 			continue
 		}
 		// the value is current if for one of the puts that wrote it nothing
@@ -750,12 +884,35 @@ func runC19PartStore(rc *RunCtx) (*Violation, error) {
 		if okv {
 			continue
 		}
+		sfx, how := "", "all three calls in transactions"
+		if gop.txfree || blockedBy.txfree || blockedSrc.txfree {
+			sfx = ":txfree"
+			tx := map[bool]string{true: "tx=nil", false: "in a transaction"}
+			how = fmt.Sprintf("put %s, %s %s, this read %s", tx[blockedSrc.txfree], blockedBy.kind, tx[blockedBy.txfree], tx[gop.txfree])
+		}
+		// The known way to get a stale entry is a cache fill (a GetPart on a
+		// miss) that is still streaming when the delete/overwrite returns and
+		// stores the old bytes afterwards. Without any read of that id in
+		// flight at that moment the entry was left (or re-created) by the
+		// delete/overwrite call itself or by a read it let in between its own
+		// steps: a different defect, keyed separately.
+		inFlight := false
+		for _, x := range ops {
+			if x.kind == "get" && x.id == gop.id && x.call < blockedBy.ret && (x.ret == 0 || x.ret > blockedBy.ret) {
+				inFlight = true
+			}
+		}
+		if !inFlight {
+			sfx += ":no-read-in-flight"
+			how += fmt.Sprintf("; no GetPart(id%d) was in flight when the %s returned", gop.id, blockedBy.kind)
+			rc.Stats.Inc("c19.partstore.stale_without_read_in_flight")
+		}
 		if blockedBy.kind == "delete" {
 			rc.Stats.Inc("c19.partstore.stale_after_delete")
-			rc.SoftFail(rc.Fail("cache-partstore", "stale-after-delete:"+pk+":"+mode, "GetPart(id%d) [%d,%d] on %s (%s) returned the bytes of %s [%d,%d] although DeletePart(id%d) [%d,%d] had completed after that put and before this read began (and no later put of these bytes overlaps or follows the delete)", gop.id, gop.call, gop.ret, spec.Default, mode, blockedSrc.tag, blockedSrc.call, blockedSrc.ret, blockedBy.id, blockedBy.call, blockedBy.ret))
+			rc.SoftFail(rc.Fail("cache-partstore", "stale-after-delete:"+pk+":"+mode+sfx, "GetPart(id%d) [%d,%d] on %s (%s) returned the bytes of %s [%d,%d] although DeletePart(id%d) [%d,%d] had completed after that put and before this read began (and no later put of these bytes overlaps or follows the delete); %s", gop.id, gop.call, gop.ret, spec.Default, mode, blockedSrc.tag, blockedSrc.call, blockedSrc.ret, blockedBy.id, blockedBy.call, blockedBy.ret, how))
 		} else {
 			rc.Stats.Inc("c19.partstore.stale_after_overwrite")
-			rc.SoftFail(rc.Fail("cache-partstore", "stale-after-overwrite:"+pk+":"+mode, "GetPart(id%d) [%d,%d] on %s (%s) returned the bytes of %s [%d,%d] although PutPart %s [%d,%d] had replaced them before this read began", gop.id, gop.call, gop.ret, spec.Default, mode, blockedSrc.tag, blockedSrc.call, blockedSrc.ret, blockedBy.tag, blockedBy.call, blockedBy.ret))
+			rc.SoftFail(rc.Fail("cache-partstore", "stale-after-overwrite:"+pk+":"+mode+sfx, "GetPart(id%d) [%d,%d] on %s (%s) returned the bytes of %s [%d,%d] although PutPart %s [%d,%d] had replaced them before this read began; %s", gop.id, gop.call, gop.ret, spec.Default, mode, blockedSrc.tag, blockedSrc.call, blockedSrc.ret, blockedBy.tag, blockedBy.call, blockedBy.ret, how))
 		}
 	}
 	rc.Stats.Add("probe.c19.get_overlapping_its_put", int64(overlap))
@@ -1787,7 +1944,7 @@ func init() {
 	})
 	Register(&Scenario{
 		Prop: "C19", Name: "cache-partstore", Policy: cachesPolicy,
-		Rule: "2-4 tasks run 2-6 PutPart/GetPart/DeletePart calls each (every call in its own transaction on the real SQLite database) on 1-3 part ids of the real cache part store (GenericCache: in-memory/filesystem persistor, evict-nothing/LFU with tiny limits, max cached part size default/100/1000 B) over a real filesystem or SQL part store; 2 in 3 ids exist below the cache before the clients start (first reads are cache fills); per run either every put writes a value of its own (rewritten-ids) or every put of an id writes the same bytes (write-once-ids, as pithos uses part ids); put bodies and read results are streamed in small chunks with a preemption point at every chunk, at every part-store call, BeginTx and commit-phase hook; oracle per GetPart with a clean EOF: the bytes are the complete value of a put on that id, and for at least one such put no DeletePart (or PutPart of other bytes) on that id completed after that put returned and before this read began; ErrPartNotFound is always accepted; a final quiescent read of every id is checked the same way; no faults; non-trivial = at least 2 reads and a put",
+		Rule: "2-4 tasks run 2-6 (with tx-free calls enabled: up to 9, the extras on one hot id, followed by 0-3 rounds of put / delete racing a read / re-read on that id) PutPart/GetPart/DeletePart calls each (in its own transaction on the real SQLite database, or transaction-free) on 1-3 part ids of the real cache part store (GenericCache: in-memory/filesystem persistor, evict-nothing/LFU with tiny limits, max cached part size default/100/1000 B) over a real filesystem or SQL part store; 2 in 3 ids exist below the cache before the clients start (first reads are cache fills); per run either every put writes a value of its own (rewritten-ids) or every put of an id writes the same bytes (write-once-ids, as pithos uses part ids); put bodies and read results are streamed in small chunks with a preemption point at every chunk, at every part-store call, BeginTx and commit-phase hook; on bottoms advertising the tx-free capabilities (filesystem) a tape-chosen share (0, 1/3, 2/3, all) of the calls runs with tx == nil directly on the cache part store, with the yields of the seam below the cache between the inner-store call and the cache update; oracle per GetPart with a clean EOF: the bytes are the complete value of a put on that id, and for at least one such put no DeletePart (or PutPart of other bytes) on that id completed after that put returned and before this read began (keys carry :txfree when a tx == nil call is involved and :no-read-in-flight when no GetPart of that id overlapped the return of that delete/overwrite); ErrPartNotFound is always accepted; a final quiescent read of every id is checked the same way; no faults; non-trivial = at least 2 reads and a put",
 		Real: append([]string{"internal/storage/metadatapart/partstore/cache", "internal/storage/metadatapart/partstore/filesystem", "internal/storage/metadatapart/partstore/sql", "internal/storage/database (sqlite, tx hooks)"}, realCache...),
 		Run:  runC19PartStore,
 	})
